@@ -1,7 +1,8 @@
 /-
 Model M15b — the local cache (`crates/core/src/backend/cache.rs`: `Cache`, `CachedBackend`), **as repaired** by the
-two `fix:` commits recorded in `known_findings.d/C19.json` (cached `read_partial` returns an error instead of
-panicking when the range exceeds the file; the cache listing only takes properly placed files for entries).
+`fix:` commits recorded in `known_findings.d/C19.json` (cached `read_partial` returns an error instead of
+panicking when the range exceeds the file; the cache listing only takes properly placed files for entries; the cache
+listing follows symlinks).
 Executable; imports only `Model/Backends.lean` (file-system state `FS`, `fget/fput/fdel`, `FileType`, `SpecMap`).
 
 Correspondence with the Rust code:
@@ -10,8 +11,9 @@ Correspondence with the Rust code:
 * cache directory state — regular files (`CD.files : FS`) plus non-file objects planted in the cache directory, e.g. at the entry
                           path of an id: `dirs`, the paths at which a **directory** sits (`hasDir`) — no operation of `cache.rs`
                           removes or replaces a directory, so `dirs` is constant — and `CD.links`, the paths at which a
-                          **dangling symlink** sits (`hasLink`; target in a non-existing directory) — `remove_file` and a
-                          `rename` onto it remove it.  A file recorded at a path of `dirs`/`links` (impossible on a real file
+                          **symlink** sits (`hasLink`), dangling (target in a non-existing directory) or resolving to a
+                          regular file outside the cache directory — `remove_file` and a `rename` onto it remove it, reads
+                          and `open(create|truncate)` follow it.  A file recorded at a path of `dirs`/`links` (impossible on a real file
                           system) is invisible to every operation.  For reads and the listing a dangling symlink is like
                           nothing at all (`NotFound`; not `is_file`).  `parentObj`: a regular file or a dangling symlink
                           where a parent directory of the entry path (`<type>`, `<type>/<xx>`) belongs — every cache
@@ -28,9 +30,10 @@ Correspondence with the Rust code:
                           path: nothing written; a directory at the entry path: `rename` fails, **the temp file stays**.  All
                           callers only log the error.
 * `cRemove`             — `Cache::remove` (`fs::remove_file`, fails on a directory; all callers only log its error).
-* `cEntry` / `cList`    — `Cache::list_with_size`: regular files (`is_file`: not directories) below `<type dir>` whose name is
-                          `L` **lower-case** hex characters and (fix) which lie at depth 2 in the directory named by their first
-                          two characters.
+* `cEntry` / `cLinkEntry` / `cList` — `Cache::list_with_size`: regular files (`is_file`: not directories) below `<type dir>`
+                          whose name is `L` **lower-case** hex characters and (fix b1c5f4b) which lie at depth 2 in the directory
+                          named by their first two characters; (fix, wave T4) `follow_links(true)`: a symlink that resolves to a
+                          regular file is an entry too, with that file's size.
 * `removeNotInList`     — `Cache::remove_not_in_list`: a cache entry stays iff the repository listing has the same id with the
                           same size.  (Code: one loop over the listing, one over the rest of a `HashMap`; the removals act on
                           distinct paths and, after the fix, cannot fail with `NotFound`, so the order is immaterial.)
@@ -60,26 +63,46 @@ def ctmp (t : FileType) (id : Name) : Path := [t.dirname, id.take 2, id ++ tmpSu
 of `cache.rs` ever removes or replaces one: `remove_file` and `rename` onto it fail, the listing skips it). -/
 def hasDir (dirs : List Path) (p : Path) : Bool := dirs.contains p
 
-/-- The part of the cache directory that operations change: regular files, and DANGLING SYMLINKS (`links`: the paths at
-which one sits; its target lies in a directory that does not exist, so nothing can be read or created through it). -/
+/-- The part of the cache directory that operations change: regular files, and SYMLINKS (`links`: path ↦ what the link
+resolves to — `none`: dangling, its target lies in a directory that does not exist, so nothing can be read or created
+through it; `some b`: a regular file **outside** the cache directory holding `b`, one file per link). -/
 structure CD where
   files : FS
-  links : List Path := []
+  links : List (Path × Option Bytes) := []
 
-def hasLink (c : CD) (p : Path) : Bool := c.links.contains p
+def lget : List (Path × Option Bytes) → Path → Option (Option Bytes)
+  | [], _ => none
+  | (q, v) :: rest, p => if q = p then some v else lget rest p
+
+def ldel : List (Path × Option Bytes) → Path → List (Path × Option Bytes)
+  | [], _ => []
+  | (q, v) :: rest, p => if q = p then ldel rest p else (q, v) :: ldel rest p
+
+def hasLink (c : CD) (p : Path) : Bool := (lget c.links p).isSome
 
 /-- `remove_file` / `rename` onto a symlink: the link is gone -/
-def unlink (c : CD) (p : Path) : CD := { c with links := c.links.filter (fun q => q != p) }
+def unlink (c : CD) (p : Path) : CD := { c with links := ldel c.links p }
 
-/-- What sits where a PARENT directory of the entry path (`<type>` or `<type>/<xx>`) belongs, if it is not a directory:
-`some true` — a regular file (path resolution fails with `ENOTDIR`), `some false` — a dangling symlink (`ENOENT`);
-`none` — nothing in the way.  Then nothing can exist below, `create_dir_all` fails, every open / remove fails. -/
+/-- what `open(p)` finds as a regular file (symlinks are followed): the bytes, if any -/
+def entryBytes (c : CD) (p : Path) : Option Bytes :=
+  match lget c.links p with
+  | some v => v
+  | none => fget c.files p
+
+/-- a non-directory at `p` in the middle of a path: `some true` — a regular file (or a link to one): `ENOTDIR`;
+`some false` — a dangling symlink: `ENOENT` -/
+def parentAt (c : CD) (p : Path) : Option Bool :=
+  match lget c.links p with
+  | some none => some false
+  | some (some _) => some true
+  | none => if (fget c.files p).isSome then some true else none
+
+/-- What sits where a PARENT directory of the entry path (`<type>` or `<type>/<xx>`) belongs, if it is not a directory.
+`none` — nothing in the way.  Otherwise nothing can exist below, `create_dir_all` fails, every open / remove fails. -/
 def parentObj (c : CD) (t : FileType) (id : Name) : Option Bool :=
-  if (fget c.files [t.dirname]).isSome then some true
-  else if hasLink c [t.dirname] then some false
-  else if (fget c.files [t.dirname, id.take 2]).isSome then some true
-  else if hasLink c [t.dirname, id.take 2] then some false
-  else none
+  match parentAt c [t.dirname] with
+  | some b => some b
+  | none => parentAt c [t.dirname, id.take 2]
 
 /-- outcome of a cache read: `Ok(Some(data))` / `Ok(None)` / `Err(_)` -/
 inductive PRes where
@@ -89,20 +112,19 @@ inductive PRes where
   deriving DecidableEq, Repr
 
 /-- `Cache::read_full`: `fs::read` — a directory at the path: `EISDIR` (an error, not `NotFound`); a dangling symlink:
-`ENOENT` = `NotFound`, a miss. -/
+`ENOENT` = `NotFound`, a miss; a symlink to a file: that file. -/
 def cReadFull (dirs : List Path) (c : CD) (t : FileType) (id : Name) : PRes :=
   if parentObj c t id = some true then .error       -- `ENOTDIR`
   else if parentObj c t id = some false then .miss  -- `ENOENT` = `NotFound`
   else if hasDir dirs (cpath t id) then .error
-  else if hasLink c (cpath t id) then .miss
-  else match fget c.files (cpath t id) with
+  else match entryBytes c (cpath t id) with
     | some d => .hit d
     | none => .miss
 
-/-- what a cache read can serve: the regular file at the entry path, unless a directory or a dangling symlink sits there -/
+/-- what a cache read can serve: the regular file at (or linked from) the entry path, unless a directory sits there or
+the path cannot be resolved -/
 def cHit (dirs : List Path) (c : CD) (t : FileType) (id : Name) : Option Bytes :=
-  if (parentObj c t id).isSome || hasDir dirs (cpath t id) || hasLink c (cpath t id) then none
-  else fget c.files (cpath t id)
+  if (parentObj c t id).isSome || hasDir dirs (cpath t id) then none else entryBytes c (cpath t id)
 
 /-- `Cache::read_partial`: on a directory `File::open` and `seek` succeed and `read_exact` fails with `EISDIR` — except
 for an empty buffer, which is "read" without a system call (a hit with no bytes).  A dangling symlink: `NotFound`. -/
@@ -110,8 +132,7 @@ def cReadPartial (dirs : List Path) (c : CD) (t : FileType) (id : Name) (off len
   if parentObj c t id = some true then .error       -- `File::open`: `ENOTDIR`
   else if parentObj c t id = some false then .miss  -- `ENOENT`
   else if hasDir dirs (cpath t id) then (if len = 0 then .hit [] else .error)
-  else if hasLink c (cpath t id) then .miss
-  else match fget c.files (cpath t id) with
+  else match entryBytes c (cpath t id) with
     | none => .miss
     | some d => if len = 0 ∨ off + len ≤ d.length then .hit ((d.drop off).take len) else .error
 
@@ -124,22 +145,32 @@ def cWriteFile (c : FS) (t : FileType) (id : Name) (d : Bytes) : FS :=
 * a directory at the temp path — `open` fails (`EISDIR`), the clean-up `remove_file` too: nothing changes;
 * a dangling symlink at the temp path — `open(create)` follows it and fails (`ENOENT`), the clean-up `remove_file`
   **removes the link**: nothing written this time;
+* a symlink to a file at the temp path — `open(truncate)` follows it: **the file it points to is overwritten**, then the
+  LINK is renamed onto the entry path: the entry is now that link (or, with a directory at the entry path, stays at the
+  temp path);
 * a directory at the entry path — the temp file is written, `rename` onto the directory fails and the temp file **stays**
   (no clean-up after a failed rename);
-* otherwise the entry is (re)placed — `rename` replaces a dangling symlink at the entry path like a file. -/
+* otherwise the entry is (re)placed — `rename` replaces a symlink at the entry path like a file. -/
 def cWrite (dirs : List Path) (c : CD) (t : FileType) (id : Name) (d : Bytes) : CD :=
   if (parentObj c t id).isSome then c     -- `create_dir_all(<type>/<xx>)` fails
   else if hasDir dirs (ctmp t id) then c
-  else if hasLink c (ctmp t id) then unlink c (ctmp t id)
-  else if hasDir dirs (cpath t id) then { c with files := fput c.files (ctmp t id) d }
-  else { files := cWriteFile c.files t id d, links := (unlink c (cpath t id)).links }
+  else match lget c.links (ctmp t id) with
+    | some none => unlink c (ctmp t id)
+    | some (some _) =>
+      if hasDir dirs (cpath t id) then { c with links := (ctmp t id, some d) :: ldel c.links (ctmp t id) }
+      else { files := fdel c.files (cpath t id),
+             links := (cpath t id, some d) :: ldel (ldel c.links (ctmp t id)) (cpath t id) }
+    | none =>
+      if hasDir dirs (cpath t id) then { c with files := fput c.files (ctmp t id) d }
+      else { files := cWriteFile c.files t id d, links := ldel c.links (cpath t id) }
 
 /-- `Cache::remove`: `fs::remove_file` — fails on a directory (`EISDIR`) and below a non-directory (nothing changes);
 removes a regular file or a symlink. -/
 def cRemove (dirs : List Path) (c : CD) (t : FileType) (id : Name) : CD :=
   if (parentObj c t id).isSome || hasDir dirs (cpath t id) then c
-  else { files := fdel c.files (cpath t id), links := (unlink c (cpath t id)).links }
+  else { files := fdel c.files (cpath t id), links := ldel c.links (cpath t id) }
 
+/-- a regular file that is a cache entry: name and place right, nothing else at / above that path -/
 def cEntry (L : Nat) (dirs : List Path) (c : CD) (t : FileType) (e : Path × Bytes) : Option (Name × Nat) :=
   match e.1 with
   | [d, sub, n] =>
@@ -148,7 +179,18 @@ def cEntry (L : Nat) (dirs : List Path) (c : CD) (t : FileType) (e : Path × Byt
     then some (n, e.2.length) else none
   | _ => none
 
-def cList (L : Nat) (dirs : List Path) (c : CD) (t : FileType) : List (Name × Nat) := c.files.filterMap (cEntry L dirs c t)
+/-- a symlink that is a cache entry (**fix**: the listing follows symlinks, as the reads do): it resolves to a regular
+file; its size is that file's.  A dangling symlink is no entry (walkdir reports an error for it, which is only logged). -/
+def cLinkEntry (L : Nat) (dirs : List Path) (c : CD) (t : FileType) (e : Path × Option Bytes) : Option (Name × Nat) :=
+  match e.1, e.2 with
+  | [d, sub, n], some b =>
+    if d = t.dirname ∧ isCacheName L n = true ∧ sub = n.take 2 ∧ hasDir dirs e.1 = false
+        ∧ lget c.links e.1 = some (some b) ∧ parentObj c t n = none
+    then some (n, b.length) else none
+  | _, _ => none
+
+def cList (L : Nat) (dirs : List Path) (c : CD) (t : FileType) : List (Name × Nat) :=
+  c.files.filterMap (cEntry L dirs c t) ++ c.links.filterMap (cLinkEntry L dirs c t)
 
 def sizeOf? (list : List (Name × Nat)) (id : Name) : Option Nat :=
   match list with
